@@ -210,6 +210,10 @@ Definition read_nN (n : N) (s : dstate) : dres (bytes * dstate) :=
   if n <=? blen (rest s) then read_n (N.to_nat n) s
   else match rest s with [] => ErrEOF | _ => Err end.
 
+(* io.CopyN: a short copy from a source that ended cleanly is io.EOF even if some bytes arrived *)
+Definition copy_nN (n : N) (s : dstate) : dres (bytes * dstate) :=
+  if n <=? blen (rest s) then read_n (N.to_nat n) s else ErrEOF.
+
 Definition takeN (n : N) (l : bytes) : bytes := firstn (N.to_nat (N.min n (blen l))) l.
 Definition dropN (n : N) (l : bytes) : bytes := skipn (N.to_nat (N.min n (blen l))) l.
 
@@ -266,7 +270,7 @@ Definition dec_prim (k : kind) (tag : N) (s : dstate) : dres (val * N * dstate) 
   | KBytes | KStr =>
       let* (l, s3) := read_num 4 s2 in
       (* io.CopyN into a growing buffer: fails unless all l bytes arrive *)
-      let* (b, s4) := read_nN l s3 in
+      let* (b, s4) := copy_nN l s3 in
       let* (_, s5) := read_nN (pad8 l) s4 in
       Ok (match k with KBytes => VBytes b | _ => VStr b end, 8 + l + pad8 l, s5)
   end.
@@ -279,7 +283,7 @@ Definition dec_skip (tag : N) (s : dstate) : dres (N * dstate) :=
   let p := padded l in
   if N.leb p (blen (rest s3))
   then Ok (8 + p, {| rest := dropN p (rest s3); last := last s3 |})
-  else Err.
+  else ErrEOF.          (* io.CopyN(ioutil.Discard, ..) cut short *)
 
 Definition zero_prim (k : kind) : val :=
   match k with
